@@ -429,14 +429,19 @@ def optimize_kl(likelihood_energy,
                     overwrite=True)
 
             if _MPI_master(comm(iglobal)):
-                with open(join(output_directory, "last_finished_iteration"), "w") as f:
-                    f.write(str(iglobal))
                 _pickle_save_values(iglobal, 'energy_history', energy_history)
                 if plot_energy_history:
                     _plot_energy_history(iglobal, energy_history)
         _barrier(comm(iglobal))
 
         _minisanity(lh, iglobal, sl, comm, plot_minisanity_history)
+        _barrier(comm(iglobal))
+
+        # Mark the iteration as finished only after everything that is needed
+        # for resuming from it has been written
+        if output_directory is not None and _MPI_master(comm(iglobal)):
+            with open(join(output_directory, "last_finished_iteration"), "w") as f:
+                f.write(str(iglobal))
         _barrier(comm(iglobal))
 
         _counting_report(count, iglobal, comm)
